@@ -207,9 +207,13 @@ func c13Notify(p *Prog, ib *inbound, ls *Lockset, r *Report) {
 		return
 	}
 	fn := impls[0]
+	p.InScope(fn, func() { c13NotifyBody(p, ib, ls, r, fn) })
+}
+
+func c13NotifyBody(p *Prog, ib *inbound, ls *Lockset, r *Report, fn *ssa.Function) {
 	base := FnName(fn)
 	var put *ssa.Call
-	for _, a := range ls.accessesIn(F("Sender.datagramNotifyCache"), fn) {
+	for _, a := range ls.accessesInScope(F("Sender.datagramNotifyCache"), fn) {
 		if a.Kind == "CW" {
 			put, _ = a.Ins.(*ssa.Call)
 		}
@@ -225,7 +229,7 @@ func c13Notify(p *Prog, ib *inbound, ls *Lockset, r *Report) {
 	okKV := false
 	detail := ""
 	if len(args) == 2 {
-		keyCall := counterCall(p, derefValue(args[0]))
+		keyCall := counterCall(p, derefValue(substParam(args[0])))
 		// the header's counter
 		var hdrCall *ssa.Call
 		for _, b := range fn.Blocks {
@@ -238,6 +242,10 @@ func c13Notify(p *Prog, ib *inbound, ls *Lockset, r *Report) {
 			}
 		}
 		sameDatagram := Path(args[1]) == Path(tx[0].Call.Args[len(tx[0].Call.Args)-1])
+		if !sameDatagram {
+			// the cached value may be a by-value copy handed to an extracted helper
+			sameDatagram = Path(substParam(args[1])) == Path(tx[0].Call.Args[len(tx[0].Call.Args)-1])
+		}
 		okKV = keyCall != nil && keyCall == hdrCall && sameDatagram
 		detail = fmt.Sprintf("key is the header's counter: %v; cached value %s, transmitted %s", keyCall != nil && keyCall == hdrCall, Path(args[1]), Path(tx[0].Call.Args[len(tx[0].Call.Args)-1]))
 	}
@@ -363,46 +371,50 @@ func c13Request(p *Prog, ib *inbound, ls *Lockset, r *Report) {
 
 func c13Bounded(p *Prog, ib *inbound, ls *Lockset, r *Report) {
 	ff := ls.Facts(F("Sender.reqMsgCache"))
-	for _, a := range ff.insAcc {
+	for _, a0 := range ff.insAcc {
+		a := a0
 		fn := a.Fn
-		okEvict := false
-		desc := ""
-		for _, d := range ls.accessesIn(F("Sender.reqMsgCache"), fn) {
-			call, ok := d.Ins.(*ssa.Call)
-			if !ok || builtinName(&call.Call) != "delete" {
-				continue
-			}
-			// guarded by len(cache) > const
-			for _, g := range Guards(call.Block()) {
-				bo, ok := g.Cond.(*ssa.BinOp)
-				if !ok || !g.Val || (bo.Op != token.GTR && bo.Op != token.GEQ) {
+		p.InScope(fn, func() {
+			okEvict := false
+			desc := ""
+			for _, d := range ls.accessesInScope(F("Sender.reqMsgCache"), fn) {
+				call, ok := d.Ins.(*ssa.Call)
+				if !ok || builtinName(&call.Call) != "delete" {
 					continue
 				}
-				lc, ok := bo.X.(*ssa.Call)
-				k, isK := constInt(bo.Y)
-				if ok && isK && builtinName(&lc.Call) == "len" && loadsField(lc.Call.Args[0], a.Field) && k <= 1000 {
-					okEvict = blockReaches(call.Block(), a.Ins.Block()) && !blockReaches(a.Ins.Block(), call.Block())
-					desc = fmt.Sprintf("eviction when more than %d entries", k)
-					// the evicted key is one of the cache's own keys (found by iterating the cache): only then does
-					// every eviction remove an entry, whatever the history of counters was
-					fromKeys := false
-					for _, b2 := range fn.Blocks {
-						for _, i2 := range b2.Instrs {
-							if rg, isR := i2.(*ssa.Range); isR && loadsField(rg.X, a.Field) {
-								if forwardTaint(rg)[call.Call.Args[1]] {
-									fromKeys = true
+				// guarded by len(cache) > const
+				for _, g := range Guards(call.Block()) {
+					bo, ok := g.Cond.(*ssa.BinOp)
+					if !ok || !g.Val || (bo.Op != token.GTR && bo.Op != token.GEQ) {
+						continue
+					}
+					lc, ok := bo.X.(*ssa.Call)
+					k, isK := constInt(bo.Y)
+					if ok && isK && builtinName(&lc.Call) == "len" && loadsField(lc.Call.Args[0], a.Field) && k <= 1000 {
+						lc2 := liftInScope(call)
+						okEvict = blockReaches(lc2.Block(), a.Ins.Block()) && !blockReaches(a.Ins.Block(), lc2.Block())
+						desc = fmt.Sprintf("eviction when more than %d entries", k)
+						// the evicted key is one of the cache's own keys (found by iterating the cache): only then does
+						// every eviction remove an entry, whatever the history of counters was
+						fromKeys := false
+						for _, b2 := range call.Parent().Blocks {
+							for _, i2 := range b2.Instrs {
+								if rg, isR := i2.(*ssa.Range); isR && loadsField(rg.X, a.Field) {
+									if forwardTaint(rg)[call.Call.Args[1]] {
+										fromKeys = true
+									}
 								}
 							}
 						}
-					}
-					if !fromKeys {
-						okEvict = false
-						desc += "; the evicted key (" + Path(call.Call.Args[1]) + ") is computed, not taken from the keys present in the cache, so the eviction may remove nothing and the cache grows without bound"
+						if !fromKeys {
+							okEvict = false
+							desc += "; the evicted key (" + Path(call.Call.Args[1]) + ") is computed, not taken from the keys present in the cache, so the eviction may remove nothing and the cache grows without bound"
+						}
 					}
 				}
 			}
-		}
-		r.Check("R7", fmt.Sprintf("fn:%s|bounded", FnName(originOf(fn))), okEvict, p.InstrPos(a.Ins), "the insertion is preceded by an eviction under a constant bound: "+desc)
+			r.Check("R7", fmt.Sprintf("fn:%s|bounded", FnName(originOf(fn))), okEvict, p.InstrPos(a.Ins), "the insertion is preceded by an eviction under a constant bound: "+desc)
+		})
 	}
 	// inbound: reference cleared before the command is processed
 	dri := p.LookupIface("api", "DeviceRemoteInterface")
